@@ -260,7 +260,7 @@ func (e *Engine) intrinsic(st *State, fr *Frame, name string, fn *ssa.Function, 
 		}
 		return &intrRes{c.And(cs...)}, true
 	case "gvcClosed":
-		return &intrRes{c.Select(e.chClosed(e.rd(st)), e.chanTermOf(st, args[0]))}, true
+		return &intrRes{e.closedNow(st, e.chanTermOf(st, args[0]))}, true
 	case "gvcHeld":
 		return &intrRes{c.Select(e.chMine(e.rd(st)), e.chanTermOf(st, args[0]))}, true
 	case "gvcArmed":
@@ -276,6 +276,14 @@ func (e *Engine) intrinsic(st *State, fr *Frame, name string, fn *ssa.Function, 
 			pre = st
 		}
 		return &intrRes{c.And(c.Not(c.Eq(t, e.i64(0))), c.Not(c.Select(e.allocMap(pre), t)))}, true
+	case "gvcFreshSlice":
+		// the slice is empty or its backing array was allocated during the call
+		sv := args[0].(*SliceV)
+		pre := st.Pre
+		if pre == nil {
+			pre = st
+		}
+		return &intrRes{c.Or(c.Eq(sv.Len, e.i64(0)), c.And(c.Not(c.Eq(sv.Region, e.i64(0))), c.Not(c.Select(e.allocMap(pre), sv.Region))))}, true
 	case "gvcRegion":
 		return &intrRes{args[0].(*SliceV).Region}, true
 	case "gvcOff":
@@ -578,6 +586,10 @@ func (e *Engine) applyMod(st *State, kind string, arg Value) {
 		ch := e.chanTermOf(st, arg)
 		havocHeap("chan.mine", smt.Bool, ch)
 		havocHeap("chan.lastsent", smt.BV64, ch)
+		if rec == nil {
+			// the callee may close the channel: force a refresh at the next read
+			delete(st.Touched, ch)
+		}
 	case "gvcModMap":
 		m := arg.(*smt.Term)
 		for _, key := range sortedKeys(st.Heap) {
